@@ -82,6 +82,7 @@ READER_REFUSALS = {
     (2, "InvalidNumSlices", "Eq", 0): "writer: num_slices = div_ceil(len, SLICE_SIZE) of a message longer than SLICE_SIZE (C03.b)",
     (2, "InvalidNumSlices", "Gt", 1000000): "accepted reader limit: messages above 1.2 GB are not transportable (documented limit, not a regression)",
     (2, "EmptySlice", "is_empty", "-"): "writer: every slice is message[start..end] with start < end (C03.b)",
+    (2, "EmptySlice", "Eq", 0): "same test spelled `payload.len() == 0` / `match payload.len() { 0 => .. }`",
     (2, "SliceSizeAboveLimit", "Gt", "SLICE_SIZE"): "writer: end - start <= SLICE_SIZE (C03.b)",
     (3, "InvalidNumSlices", "Eq", 0): "as for tag 2",
     (3, "InvalidNumSlices", "Gt", 1000000): "as for tag 2",
@@ -93,7 +94,7 @@ READER_REFUSALS = {
 def reader_refusals(t):
     f = t.fn("renet::packet::Packet::from_bytes")
     S = t.F.consts["renet::packet::SLICE_SIZE"]["val"]
-    r = RuleResult("C16.e", "the packet reader refuses nothing the writer can emit: every explicit refusal in from_bytes is a vetted one (or a count bound not below the sender's cap)", floor=9)
+    r = RuleResult("C16.e", "the packet reader refuses nothing the writer can emit: every explicit refusal in from_bytes is a vetted one (or a count bound not below the sender's cap)", floor=5)
     # tag arms
     arms = {}
     for br in t.branches(f):
@@ -122,6 +123,9 @@ def reader_refusals(t):
                 # blocks that only jump, up to the conditional branches
                 conds = []
                 bmap = {br["bb"]: br for br in t.branches(f) if br["kind"] == "bool"}
+                dmap = {br["bb"]: br for br in t.branches(f) if br["kind"] == "discr" and "checked_sub" in fmt(br["on"])}
+                imap = {br["bb"]: br for br in t.branches(f) if br["kind"] == "int" and "::len(" in fmt(br["on"])}
+                csub = False; ivals = []
                 work, seenb = [b["i"]], set()
                 while work:
                     x = work.pop()
@@ -132,8 +136,24 @@ def reader_refusals(t):
                             br = bmap[p_]
                             if br["t_edge"][1] == x: conds.append((br, True))
                             elif br["f_edge"][1] == x: conds.append((br, False))
+                        elif p_ in imap:
+                            ivals += [v_ for v_, tgt_ in imap[p_]["targets"].items() if tgt_ == x]
+                        elif p_ in dmap:
+                            # `a.checked_sub(b)` matched on None: the refusal means a < b (same as the explicit `if a < b { return Err }`)
+                            dbr = dmap[p_]
+                            if dbr["targets"].get(0, dbr["otherwise"]) == x: csub = True
                         elif f.blocks[p_]["term"]["k"] == "goto" and all(z["k"] != "assign" or not z["place"]["proj"] for z in f.blocks[p_]["stmts"]): work.append(p_)
                 site = Site(f, b["i"], k, s)
+                if ivals and not conds:
+                    for v_ in ivals:
+                        key = (arm, errv, "Eq", v_); r.site(site, str(key))
+                        if key not in READER_REFUSALS: r.bad(f"refusal|{arm}|{errv}|Eq|{v_}", site, f"reader refusal not in the vetted table: arm {arm}, {errv} when a decoded length == {v_}")
+                    continue
+                if csub and not conds:
+                    key = (arm, errv, "Lt", "var")
+                    r.site(site, str(key) + " (checked_sub)")
+                    if key not in READER_REFUSALS: r.bad(f"refusal|{arm}|{errv}|Lt|var", site, f"reader refusal not in the vetted table: arm {arm}, {errv} on a failed checked_sub")
+                    continue
                 if arm == "other" or not conds:
                     key = (arm, errv, "-", "-")
                     r.site(site, str(key))
@@ -150,6 +170,7 @@ def reader_refusals(t):
                         key = (arm, errv, op, kc)
                         subj = a
                     elif c[0] == "call" and method_of(c[1]) == "is_empty" and pol: key = (arm, errv, "is_empty", "-"); subj = c[2][0]
+                    elif c[0] == "call" and method_of(c[1]) == "len" and not pol: key = (arm, errv, "Eq", 0); subj = c[2][0]       # `match x.len() { 0 => refuse, .. }`
                     else: key = (arm, errv, fmt(br["raw"])[:40], "-"); subj = None
                     r.site(site, str(key))
                     if key in READER_REFUSALS: continue
